@@ -718,6 +718,7 @@ func writeCoq(path string, fa *facts) {
 	}
 	sb.WriteString("Definition effects : list (string * list string) :=\n  [" + strings.Join(ef, ";\n   ") + "].\n")
 	sb.WriteString("Definition process_state : list string :=\n  " + strList(processState(repoRoot)) + ".\n")
+	sb.WriteString("Definition aliasing_sites : list string :=\n  " + strList(aliasingSites(repoRoot)) + ".\n")
 	sb.WriteString("Definition roots_consensus : list string :=\n  " + strList(fa.RootsConsensus) + ".\n")
 	sb.WriteString("Definition roots_query : list string :=\n  " + strList(fa.RootsQuery) + ".\n")
 	sb.WriteString("Definition reach_consensus : list string :=\n  " + strList(fa.ReachConsensus) + ".\n")
